@@ -122,7 +122,9 @@ func (s *rrSegFetcher) doCheck() {
 
 	// queue outgoing interest for the next segment
 	args := ExpressRArgs{
-		Name: append(state.fetchName,
+		// do not append in place: with spare capacity in fetchName all
+		// interests queued by this check would share (and overwrite) one name
+		Name: append(state.fetchName[:len(state.fetchName):len(state.fetchName)],
 			enc.NewSegmentComponent(seg),
 		),
 		Config: &ndn.InterestConfig{
